@@ -181,8 +181,10 @@ def run(ctx):
         cfg = cat[name]
         behs, _ = BR.behaviours(ctx, name, cfg, 3 if cfg.T // cfg.QStep <= 4 else 2, 60 if quick else 600, ctx.seed)
         traces = []
+        offs = cat[name].offsets()
         for beh in behs:
             qs = BR.history(beh)
+            cfg = cat[name].shifted(offs[(k // len(combos) + k) % len(offs)])      # origin of the real time axis, in rotation
             steps = BR.structural_replay(ctx, name, cfg, beh, "C05")
             if steps is not None:
                 # extend the recorded trace with the re-asked history so that TraceBrownian.Repeat is exercised
@@ -191,8 +193,8 @@ def run(ctx):
             sn, lv = combos[k % len(combos)]
             k += 1
             fails = P.check_repeat(cfg, qs, P.SHAPES[sn], lv, rnd)
-            ctx.case((name, str(qs), sn, lv), nontrivial=len(set(qs)) >= 2, trace=steps is not None,
-                     sample=dict(cfg=name, history=qs, shape=sn, levy=lv))
+            ctx.case((name, str(qs), sn, lv, cfg.off), nontrivial=len(set(qs)) >= 2, trace=steps is not None,
+                     sample=dict(cfg=name, history=qs, shape=sn, levy=lv, origin=cfg.t(0)))
             for kind, det in fails[:2]:
                 ctx.violation(dict(cfg=name, kind=kind, levy=lv, shape=sn),
                               f"{kind} after history {qs}: {det}",
